@@ -44,7 +44,8 @@ RULES = [
   (r'bitstr::cut_bits', r'Overflow\(Sub\)', r'^8,', '-', 'len = min(end-start, 8-start_bit), so start_bit + len <= 8'),
   (r'bitstr_ext::(byte_to_dump_char|cstr_word)', r'call:unwrap', r'from_u32', '-', 'argument is a u8 widened to u32: every value below 0x100 is a Unicode scalar value'),
   (r'bitstr_ext::dump_bitstr_at', r'Overflow\(Mul\)', r'', '-', 'ncols is the constant 8 at both call sites (word_dump, word_dump_at): 16*8*8'),
-  (r'bitstr_ext::fmt_bitstr_dump', r'Overflow\(Add\)', r'', 'Lt(phi(', 'pos advances by the width (<= 8) of each iter8 item and stays <= end'),
+  # operand-free entry (`*`): what is added to pos per row is written inline or counted by a row helper; the argument is the loop guard pos < end, which is re-checked
+  (r'bitstr_ext::fmt_bitstr_dump', r'Overflow\(Add\)', r'\*', 'Lt(phi(', 'pos advances by the widths (<= 8 each) of the iter8 items of s and stays <= end = first + s.len(), where first + s.len() <= length of the input (the caller cut s out of it at first)'),
   (r'bitstr_ext::hex_to_bitstr', r'call:str-index', r'', '@hex-prefix-is-ascii', 'from_hex_str fails at char index k only after k characters that are hex digits or ASCII whitespace (one byte each): k is also the byte offset and a char boundary'),
   (r'bitstr_ext::nulbytestr_peek', r'Overflow\(Add\)', r'', '-', 'len sums the widths of the iter8 items of the rest of the input (<= its bit length); start + len <= end'),
   (r'bitstr_ext::nulbytestr_peek', r'call:unwrap', r'Bitstr::read', '-', 'len <= rest.len() (sum of its own item widths), so read(len) is Some'),
@@ -99,6 +100,10 @@ def main():
         key = c08.site_key(s['fn'], s['kind'], sig)
         hit = None
         for (rf, rk, rs, needs, reason) in RULES:
+            if rs == r'\*' and re.search(rf, s['fn']) and re.search(rk, s['kind']):
+                key = c08.site_key(s['fn'], s['kind'], '*')
+                hit = (needs, reason)
+                break
             if re.search(rf, s['fn']) and re.search(rk, s['kind']) and re.search(rs, sig):
                 hit = (needs, reason)
                 break
